@@ -68,20 +68,36 @@ def run(plan):
             frame = bytes.fromhex(op["frame"])
             state["reply"] = bytes.fromhex(op["reply"])
             state["post"] = [bytes.fromhex(x) for x in op.get("post", [])]
-            dev.script = [{"lat": op["lat"]}] if op.get("lat") else []
+            ndrop = op.get("drops", 0)
+            dev.script = [{"drop": True}] * ndrop + ([{"lat": op["lat"]}] if op.get("lat") else [])
             n0 = len(dev.log)
             now = w.clock.now()
             try:
-                got = await lan.send(frame, retries=1)
+                got = await lan.send(frame, retries=1 + ndrop)
             except Exception as e:
                 res.fail(f"LAN.send raised {type(e).__name__}", f"{e!r} frame_len={len(frame)} reply_len={len(state['reply'])}")
                 return
             # --- client -> device direction: what the independent decoder saw
             reqs = [e for e in dev.log[n0:] if e["kind"] in ("v2_req", "bad_v2")]
-            if len(reqs) != 1 or reqs[0]["kind"] != "v2_req":
+            if len(reqs) != 1 + ndrop or any(e["kind"] != "v2_req" for e in reqs):
                 res.fail("request packet rejected by the independent decoder",
                          repr([(e["kind"], e.get("err")) for e in reqs]))
                 return
+            if ndrop:
+                w.fire("retransmission", ndrop)
+                import datetime as _dt
+                t_first = w.clock.epoch + _dt.timedelta(seconds=reqs[0]["t"] + w.clock.offset)
+                first_ts = codec.v2_timestamp_bytes((t_first.year, t_first.month, t_first.day, t_first.hour,
+                                                     t_first.minute, t_first.second, t_first.microsecond))
+                for e in reqs[1:]:
+                    # a retransmission is a packet too: same frame and id, a timestamp of the first or of this write
+                    t_now = w.clock.epoch + _dt.timedelta(seconds=e["t"] + w.clock.offset)
+                    now_ts = codec.v2_timestamp_bytes((t_now.year, t_now.month, t_now.day, t_now.hour, t_now.minute,
+                                                       t_now.second, t_now.microsecond))
+                    if e["frame"] != frame or e["device_id"] != want_id or e["ts"] not in (first_ts, now_ts):
+                        res.fail("retransmitted packet differs from what the independent decoder expects",
+                                 f"frame ok {e['frame'] == frame}, id ok {e['device_id'] == want_id}, ts {e['ts'].hex()}")
+                        return
             e = reqs[0]
             if e["frame"] != frame:
                 res.fail("request frame not recovered identically", f"sent {frame.hex()} decoded {e['frame'].hex()}")
@@ -155,6 +171,8 @@ def space(tier):
                 op["post"] = [special_frame(rng, rng.randint(0, 64)).hex() for _ in range(rng.randint(1, 2))]
             if rng.random() < 0.3:
                 op["lat"] = rng.choice([0.05, 1.0, 1.9])
+            if rng.random() < 0.2 and ep[0] < 9000:
+                op["drops"] = rng.randint(1, 2)
             ops.append(op)
         return {"config": {"version": 2, "device_id": rand_id(rng), "epoch": ep}, "ops": ops}
     sp.add("random", 20000 if tier == "quick" else 600_000, rnd)
